@@ -299,8 +299,51 @@ struct Setup{
     Problem pb; Proj pj; Vec start; double lambda0, inc, dec, tol; bool feasible_start;
 };
 
+// the extern "C" entry points of libtasmaniandream (the route of the Python module): same algorithm, C callbacks with an error flag
+} // anonymous namespace
+} // namespace vf
+namespace TasOptimization{ extern "C"{
+    void* tsgGradientDescentState_Construct(const int num_dimensions, const double x0[], const double initial_stepsize);
+    void tsgGradientDescentState_Destruct(void* state);
+    double tsgGradientDescentState_GetAdaptiveStepsize(void* state);
+    void tsgGradientDescentState_GetX(void* state, double x_out[]);
+    OptimizationStatus tsgGradientDescent_AdaptProj(double (*f)(const int, const double[], int[]), void (*g)(const int, const double[], double[], int[]),
+                                                    void (*p)(const int, const double[], double[], int[]), const double increase_coeff, const double decrease_coeff,
+                                                    const int max_iterations, const double tolerance, void* state, int* err);
+    OptimizationStatus tsgGradientDescent_Adapt(double (*f)(const int, const double[], int[]), void (*g)(const int, const double[], double[], int[]),
+                                                const double increase_coeff, const double decrease_coeff, const int max_iterations, const double tolerance, void* state, int* err);
+    OptimizationStatus tsgGradientDescent_Const(void (*g)(const int, const double[], double[], int[]), const double stepsize, const int max_iterations,
+                                                const double tolerance, void* state, int* err);
+}}
+namespace vf{
+namespace {
+static bool g_c19_via_c = false; // set per case by mon_c19: one case in three goes through the C entry points
+struct CRoute{ std::function<double(Vec const&)> f; std::function<void(Vec const&, Vec&)> g, p; };
+static CRoute *g_c19_route = nullptr;
+static double c19_c_obj(const int n, const double x[], int err[]){ err[0] = 0; return g_c19_route->f(Vec(x, x + n)); }
+static void c19_c_grad(const int n, const double x[], double out[], int err[]){ err[0] = 0; Vec o((size_t) n); g_c19_route->g(Vec(x, x + n), o); std::copy(o.begin(), o.end(), out); }
+static void c19_c_proj(const int n, const double x[], double out[], int err[]){ err[0] = 0; Vec o((size_t) n); g_c19_route->p(Vec(x, x + n), o); std::copy(o.begin(), o.end(), out); }
+
 static RunOut run_adaptive(Setup const &s, int cap){
     RunOut r;
+    if (g_c19_via_c){
+        std::vector<Event> &log = r.log;
+        CRoute route;
+        route.f = [&](Vec const &x)->double{ double v = s.pb.f(x); log.push_back(Event{'F', x, Vec(), v}); return v; };
+        route.g = [&](Vec const &x, Vec &out)->void{ s.pb.g(x, out); log.push_back(Event{'G', x, out, 0.0}); };
+        route.p = [&](Vec const &x, Vec &out)->void{ s.pj.apply(x, out); log.push_back(Event{'P', x, out, 0.0}); };
+        g_c19_route = &route;
+        void *state = TasOptimization::tsgGradientDescentState_Construct((int) s.start.size(), s.start.data(), s.lambda0);
+        int err = -1;
+        if (s.pj.kind == 0) r.st = TasOptimization::tsgGradientDescent_Adapt(c19_c_obj, c19_c_grad, s.inc, s.dec, cap, s.tol, state, &err);
+        else r.st = TasOptimization::tsgGradientDescent_AdaptProj(c19_c_obj, c19_c_grad, c19_c_proj, s.inc, s.dec, cap, s.tol, state, &err);
+        r.x.resize(s.start.size()); TasOptimization::tsgGradientDescentState_GetX(state, r.x.data());
+        r.lambda = TasOptimization::tsgGradientDescentState_GetAdaptiveStepsize(state);
+        TasOptimization::tsgGradientDescentState_Destruct(state);
+        g_c19_route = nullptr;
+        if (err != 0) throw std::runtime_error("c-interface reported an error flag although no callback failed");
+        return r;
+    }
     std::vector<Event> &log = r.log;
     TasOptimization::ObjectiveFunctionSingle F = [&](Vec const &x)->double{ double v = s.pb.f(x); log.push_back(Event{'F', x, Vec(), v}); return v; };
     TasOptimization::GradientFunctionSingle G = [&](Vec const &x, Vec &out)->void{ s.pb.g(x, out); log.push_back(Event{'G', x, out, 0.0}); };
@@ -460,6 +503,18 @@ static void constant_case(CaseCtx &c, Rng &rng){
     struct GLog{ Vec in, out; };
     auto run = [&](int cap, std::vector<GLog> &log, Vec &xout)->TasOptimization::OptimizationStatus{
         TasOptimization::GradientFunctionSingle G = [&](Vec const &x, Vec &out)->void{ pb.g(x, out); log.push_back(GLog{x, out}); };
+        if (g_c19_via_c){
+            CRoute route; route.g = [&](Vec const &x, Vec &out)->void{ pb.g(x, out); log.push_back(GLog{x, out}); };
+            g_c19_route = &route;
+            void *state = TasOptimization::tsgGradientDescentState_Construct((int) start.size(), start.data(), 1.0);
+            int err = -1;
+            auto status = TasOptimization::tsgGradientDescent_Const(c19_c_grad, step, cap, tol, state, &err);
+            xout.resize(start.size()); TasOptimization::tsgGradientDescentState_GetX(state, xout.data());
+            TasOptimization::tsgGradientDescentState_Destruct(state);
+            g_c19_route = nullptr;
+            if (err != 0) throw std::runtime_error("c-interface reported an error flag although no callback failed");
+            return status;
+        }
         if (use_state_object){
             TasOptimization::GradientDescentState st(start, 1.0);
             auto status = TasOptimization::GradientDescent(G, step, cap, tol, st);
@@ -535,6 +590,8 @@ static void constant_case(CaseCtx &c, Rng &rng){
 void mon_c19(CaseCtx &c, Rng &rng){
     std::string only = arg("variant", "");
     bool constant = (only == "constant") || (only.empty() && rng.coin(0.2));
+    g_c19_via_c = (c.index % 3 == 1); // the extern "C" entry points (route of the Python module), same oracle
+    c.count(g_c19_via_c ? "route:c-interface" : "route:c++");
     if (constant) constant_case(c, rng); else adaptive_case(c, rng);
 }
 
